@@ -305,6 +305,35 @@ SUB = ["x", "y", "xx", "a", "aa", "z9"]
 TYPES = [0, 1, 2, 3, 4, 5, 7, 8, 9, 10, 11, 12, 13, 14, 15, 15, 15, 16, 16, 17, 17, 18]
 
 
+NIN = {1: 3, 2: 1, 3: 1, 4: 2, 5: 1, 7: 1, 8: 1, 9: 2, 10: 1, 11: 2, 12: 2, 13: 2, 14: 2}
+NSC = {0: 1, 1: 6, 3: 2, 5: 1, 7: 3, 8: 2, 10: 1, 11: 1, 12: 2}
+
+
+def use_matrix():
+    """"Deleting or renaming a field updates or refuses every use of it": one short sequence for every entry type
+    and every input / scalar slot it has, with the used field at the top level and as a metafield; the used field is
+    renamed with GD_REN_UPDB (the code must follow), its parent is renamed, and a plain delete must be refused."""
+    out = []
+    for ty in sorted(set(NIN) | set(NSC)):
+        slots = [("in", i) for i in range(NIN.get(ty, 0))] + [("sc", i) for i in range(NSC.get(ty, 0))]
+        for kind, idx in slots:
+            for target in ("c", "p/c"):
+                ins = ["r"] * NIN.get(ty, 0)
+                scs = ["-"] * NSC.get(ty, 0)
+                if kind == "in":
+                    ins[idx] = target
+                else:
+                    scs[idx] = target
+                seq = ["A 0 - r 0 0 0 - - 0", "A 0 - c 15 0 0 - - 3", "A 0 - p 15 0 0 - - 4", "A 1 p c 15 0 0 - - 5",
+                       "A 0 - u %d 0 0 %s %s 1" % (ty, ",".join(ins) if ins else "-", ",".join(scs) if scs else "-")]
+                if target == "c":
+                    seq += ["R c cz 2", "D cz 0", "D cz 4"]
+                else:
+                    seq += ["R p/c cz 2", "R p pz 2", "D pz/cz 0", "D pz 1"]
+                out.append(seq)
+    return out
+
+
 def tree_tail(rng, head):
     """Library-only closing part: include trees of depth >= 3, parents and subfields at every level, subfields moved
     (gd_move) into fragments other than their parent's, then un-includes / deletes / renames / moves at every level,
@@ -492,7 +521,7 @@ def gen_sequence(rng, n, alias_loops, madd_any_frag=False):
             if full not in live:
                 live.append(full)
             uses = ins + [c for c in scs if c != "-"]
-            if uses and rng.random() < 0.3:
+            if uses and rng.random() < 0.45:
                 # try to take one of the fields this entry uses away from under it
                 u = rng.choice(uses)
                 if u == "INDEX":
@@ -500,7 +529,7 @@ def gen_sequence(rng, n, alias_loops, madd_any_frag=False):
                 elif rng.random() < 0.6:
                     ops.append("D %s %d" % (u, rng.choice([0, 1, 4, 5])))
                 else:
-                    ops.append("R %s %s %d" % (u, rng.choice(TOP + SUB), rng.choice([2, 2, 0, 6])))
+                    ops.append("R %s %s %d" % (u, rng.choice(TOP + SUB), rng.choice([2, 2, 2, 0, 6, 10])))
         elif r < 0.40:
             parent = "-"; nm = rng.choice(TOP); tgt = code()
             tops = [x for x in live if "/" not in x and x != "INDEX"]
@@ -575,6 +604,20 @@ def main():
         chk.violation("model-build", "Coq model does not compile: " + log[-1500:], {"kind": "model-build"}, found=False)
         return chk.finish()
     tmp = vlib.scratch("C15-")
+    # run a private copy of the driver: another C15 check (run_seed.sh in another session) may rebuild
+    # ocaml/C15/driver while this one is running
+    import shutil, time
+    for attempt in range(6):
+        try:
+            with vlib.Lock(os.path.join(vlib.VERIF, "ocaml", "C15", ".lock")):
+                shutil.copy2(drv, os.path.join(tmp, "driver"))
+            trc, _ = vlib.sh([os.path.join(tmp, "driver"), ""], inp=b"")
+            if trc == 0:
+                drv = os.path.join(tmp, "driver")
+                break
+        except OSError:
+            pass
+        time.sleep(1.0)
     counter = itertools.count(1)
 
     def run_impl(ops, unsafe=False):
@@ -665,6 +708,7 @@ def main():
         elif i % 4 == 2:
             ops += tree_tail(rng, ops)
         seqs.append(ops)
+    seqs += use_matrix()
     for k, w in list(WITNESS.items()) + list(EXTRA_WITNESS.items()) + list(FIXED_WITNESS.items()):
         if k not in os.environ.get("C15_SKIP_WITNESS", "").split(","):
             seqs.append(list(w))
